@@ -12,6 +12,8 @@ import (
 	"io/ioutil"
 	"net"
 	"os"
+	"regexp"
+	"runtime"
 	"strings"
 	"sync"
 	"time"
@@ -51,6 +53,52 @@ func standInPeerNamed(secret string, byCh map[byte]p2p.Reactor, descs []*p2p.Cha
 func recvOn(r p2p.Reactor, ch byte, peer *p2p.Peer, bz []byte) (disc bool, pval interface{}, stack string) {
 	pval, stack = mbt.Catch(func() { r.Receive(ch, peer, bz) })
 	return pval != nil, pval, stack
+}
+
+// guardedEsc runs f and waits for it base, then 2x base, then 4x base more (7x base in all): only a call that is still
+// blocked after every one of the escalating deadlines counts as blocked.  Deadlines are for machine load; a call blocked
+// on a lock or channel that nobody will ever release stays blocked however long one waits.
+func guardedEsc(base time.Duration, f func()) bool {
+	done := make(chan struct{})
+	go func() { f(); close(done) }()
+	for _, d := range []time.Duration{base, 2 * base, 4 * base} {
+		select {
+		case <-done:
+			return true
+		case <-time.After(d):
+		}
+	}
+	return false
+}
+
+var goroutineHdr = regexp.MustCompile(`^goroutine (\d+) \[([^\],]+)`)
+
+// parkedIn looks at the real goroutines: it returns id and state of the goroutine whose stack contains `frame`, sampled
+// twice two seconds apart; parked = both samples show the same goroutine waiting (not running / runnable).
+func parkedIn(frame string) (desc string, parked bool) {
+	sample := func() (string, string, string) {
+		buf := make([]byte, 4<<20)
+		buf = buf[:runtime.Stack(buf, true)]
+		for _, g := range strings.Split(string(buf), "\n\n") {
+			if strings.Contains(g, frame) {
+				if m := goroutineHdr.FindStringSubmatch(g); m != nil {
+					return m[1], m[2], g
+				}
+			}
+		}
+		return "", "", ""
+	}
+	id1, st1, g1 := sample()
+	time.Sleep(2 * time.Second)
+	id2, st2, _ := sample()
+	if id1 == "" || id2 == "" {
+		return "no goroutine is inside " + frame, false
+	}
+	waiting := func(s string) bool { return s != "running" && s != "runnable" && s != "syscall" }
+	if len(g1) > 1500 {
+		g1 = g1[:1500]
+	}
+	return fmt.Sprintf("goroutine %s [%s] then goroutine %s [%s]\n%s", id1, st1, id2, st2, g1), id1 == id2 && waiting(st1) && waiting(st2)
 }
 
 func guarded(d time.Duration, f func()) bool {
@@ -116,6 +164,7 @@ type bcEnv struct {
 	executed []int64
 	blocks   map[int64]*types.Block
 	exMu     sync.Mutex
+	hungWhy  string
 	hung     bool // a Receive call never returned: the reactor / pool is blocked, nothing may be closed any more
 }
 
@@ -125,25 +174,34 @@ func (e *bcEnv) executedHeights() []int64 {
 	return append([]int64(nil), e.executed...)
 }
 
+// the reference chain (three blocks made by four honest real nodes) is built once per process
+var refChain struct {
+	sim    *csim.Sim
+	dir    string
+	blocks map[int64]*types.Block
+}
+
 func newBC() (*bcEnv, error) {
-	dir, err := ioutil.TempDir("", "peerinput-bc-")
-	if err != nil {
-		return nil, err
+	if refChain.sim == nil {
+		dir, err := ioutil.TempDir("", "peerinput-bc-")
+		if err != nil {
+			return nil, err
+		}
+		s, err := csim.New(dir, powers(), nil, maxRound)
+		if err != nil {
+			return nil, err
+		}
+		s.Start()
+		if _, err := s.Drain(3, 400); err != nil {
+			return nil, fmt.Errorf("cannot build the reference chain: %v", err)
+		}
+		refChain.sim, refChain.dir, refChain.blocks = s, dir, map[int64]*types.Block{}
+		for h := int64(1); h <= 3; h++ {
+			refChain.blocks[h] = s.Nodes[1].Store.LoadBlock(h)
+		}
 	}
-	e := &bcEnv{dir: dir, blocks: map[int64]*types.Block{}}
-	// a real chain of three blocks made by four honest real nodes
-	s, err := csim.New(dir, powers(), nil, maxRound)
-	if err != nil {
-		return nil, err
-	}
-	e.sim = s
-	s.Start()
-	if _, err := s.Drain(3, 400); err != nil {
-		return nil, fmt.Errorf("cannot build the reference chain: %v", err)
-	}
-	for h := int64(1); h <= 3; h++ {
-		e.blocks[h] = s.Nodes[1].Store.LoadBlock(h)
-	}
+	s, dir := refChain.sim, refChain.dir
+	e := &bcEnv{dir: dir, blocks: refChain.blocks, sim: s}
 	valSet := s.Nodes[1].State.LastValidators
 	if valSet == nil || valSet.Size() == 0 {
 		valSet = s.Nodes[1].State.Validators
@@ -175,6 +233,7 @@ func newBC() (*bcEnv, error) {
 		return nil, err
 	}
 	e.peer, e.stop = standInPeer(map[byte]p2p.Reactor{blockchain.BlockchainChannel: e.bcR}, e.bcR.GetChannels())
+	blockchain.VerifSetPeerTimeoutSeconds(3600) // the 15 s response timer would turn machine load into peer removals
 	return e, nil
 }
 
@@ -184,8 +243,14 @@ func (e *bcEnv) close() {
 	}
 	e.stop()
 	e.bcR.Stop()
-	e.sim.Close()
-	os.RemoveAll(e.dir)
+}
+
+func closeRefChain() {
+	if refChain.sim != nil {
+		refChain.sim.Close()
+		os.RemoveAll(refChain.dir)
+		refChain.sim = nil
+	}
 }
 
 func (e *bcEnv) recv(o interface{}) (bool, interface{}, string) {
@@ -198,11 +263,49 @@ func (e *bcEnv) recvFrom(peer *p2p.Peer, bz []byte) (disc bool, pval interface{}
 	if e.hung {
 		return false, nil, ""
 	}
-	if !guarded(6*time.Second, func() { disc, pval, stack = recvOn(e.bcR, blockchain.BlockchainChannel, peer, bz) }) {
-		e.hung = true
-		return false, "Receive did not return within 6 s", ""
+	if guardedEsc(6*time.Second, func() { disc, pval, stack = recvOn(e.bcR, blockchain.BlockchainChannel, peer, bz) }) {
+		return
 	}
-	return
+	// 42 s without a return.  The verdict comes from the goroutine itself: is it parked inside the reactor?
+	desc, parked := parkedIn("blockchain.(*BlockchainReactor).Receive")
+	if !parked {
+		// slow, not blocked: give it all the time it needs
+		desc2 := ""
+		for k := 0; k < 20 && !parked; k++ {
+			time.Sleep(5 * time.Second)
+			if desc2, parked = parkedIn("blockchain.(*BlockchainReactor).Receive"); strings.HasPrefix(desc2, "no goroutine") {
+				return // it returned meanwhile
+			}
+		}
+		desc = desc2
+	}
+	e.hung = true
+	e.hungWhy = desc
+	return false, "Receive did not return (42 s, escalating deadlines) and its goroutine is parked: " + desc, ""
+}
+
+// serveHonest plays an honest peer for as long as it takes: it (re-)announces its height whenever the pool does not
+// know it (a pool drops peers it finds slow; honest peers answer the status request that follows) and answers every
+// request the pool has assigned to it with the genuine block.  It returns when blocks 1..upto are executed, when a
+// Receive call blocks for good, or after the (generous) deadline.
+func (e *bcEnv) serveHonest(upto int, deadline time.Duration) bool {
+	end := time.Now().Add(deadline)
+	for time.Now().Before(end) && !e.hung {
+		if len(e.executedHeights()) >= upto {
+			return true
+		}
+		v := e.bcR.VerifPool().VerifView(3)
+		if _, known := v.Peers[e.peer.Key]; !known {
+			e.recv(blockchain.VerifStatusResponse(3))
+		}
+		for _, rq := range v.Requesters {
+			if rq.PeerID == e.peer.Key && !rq.HasBlock && e.blocks[rq.Height] != nil {
+				e.recvFrom(e.peer, wire.BinaryBytes(blockchain.VerifBlockResponse(cloneBlock(e.blocks[rq.Height]))))
+			}
+		}
+		time.Sleep(100 * time.Millisecond)
+	}
+	return len(e.executedHeights()) >= upto
 }
 
 // announce makes the pool ask this peer for blocks 1..: returns when requesters 1 and 2 are assigned to it.
@@ -210,20 +313,23 @@ func (e *bcEnv) announce(h int64) error {
 	if d, p, _ := e.recv(blockchain.VerifStatusResponse(h)); d {
 		return fmt.Errorf("status response disconnected: %v", p)
 	}
-	for k := 0; k < 600; k++ {
+	for k := 0; k < 3000; k++ { // up to 60 s: only machine load decides how long the requesters take
 		v := e.bcR.VerifPool().VerifView(3)
 		n := 0
 		for _, rq := range v.Requesters {
-			if rq.PeerID == e.peer.Key && rq.Height <= 2 {
+			if rq.PeerID == e.peer.Key && rq.Height <= 3 {
 				n++
 			}
 		}
-		if n >= 2 {
+		if n >= 3 {
 			return nil
+		}
+		if _, known := v.Peers[e.peer.Key]; !known && k%100 == 99 {
+			e.recv(blockchain.VerifStatusResponse(h))
 		}
 		time.Sleep(20 * time.Millisecond)
 	}
-	return fmt.Errorf("the pool did not assign requests 1,2 to the peer")
+	return fmt.Errorf("the pool did not assign requests 1..3 to the peer within 60 s")
 }
 
 func cloneBlock(b *types.Block) *types.Block {
@@ -280,7 +386,7 @@ func runBC(class, want string) (got, detail string, wedge error) {
 		return runBCResponse(e, class)
 	case "commit-late-badsig", "commit-late-wrong-height", "commit-late-wrong-round", "commit-late-wrong-type", "commit-late-wrong-index",
 		"commit-late-wrong-address", "commit-late-duplicate", "commit-late-nil", "commit-late-other-block", "commit-late-empty-address":
-		return runBCCommit(e, class)
+		return runBCCommit(e, class, want)
 	default:
 		// requested-*: the pool asked this peer for blocks 1 and 2
 		if err := e.announce(3); err != nil {
@@ -330,7 +436,7 @@ func runBC(class, want string) (got, detail string, wedge error) {
 			disc, pval = d2, p2
 		}
 		time.Sleep(settle) // poolRoutine verifies (and executes) in its own goroutine: a panic there ends this process
-		for k := 0; want == "Accept" && len(e.executedHeights()) == 0 && k < 80; k++ {
+		for k := 0; want == "Accept" && len(e.executedHeights()) == 0 && k < 1200; k++ {
 			time.Sleep(100 * time.Millisecond)
 		}
 		if class == "requested-valid" {
@@ -348,7 +454,7 @@ func runBC(class, want string) (got, detail string, wedge error) {
 	}
 	time.Sleep(150 * time.Millisecond)
 	// no wedge: the pool still answers (its lock is free) and the reactor still serves a status request
-	ok := guarded(5*time.Second, func() {
+	ok := guardedEsc(10*time.Second, func() {
 		e.bcR.VerifPool().VerifView(3)
 		p, stop := standInPeer(map[byte]p2p.Reactor{blockchain.BlockchainChannel: e.bcR}, e.bcR.GetChannels())
 		recvOn(e.bcR, blockchain.BlockchainChannel, p, wire.BinaryBytes(blockchain.VerifStatusRequest(1)))
@@ -397,36 +503,32 @@ func runBCResponse(e *bcEnv, class string) (got, detail string, wedge error) {
 		disc, pval, _ = e.recvFrom(e.peer, resp(far))
 	}
 	if e.hung {
-		return "Drop", "", fmt.Errorf("BlockchainReactor.Receive never returned for the %s (the peer's recv routine is blocked; BlockPool.AddBlock holds the pool lock): fast sync is wedged", class)
+		return "Drop", "", fmt.Errorf("BlockchainReactor.Receive never returned for the %s (the peer's recv routine is blocked; BlockPool.AddBlock holds the pool lock): fast sync is wedged\n%s", class, e.hungWhy)
 	}
 	if disc {
 		return "Disconnect", fmt.Sprint(pval), nil
 	}
-	// oracle 1: the pool's lock is free
-	if !guarded(5*time.Second, func() {
+	// oracle 1: the pool's lock is free (escalating deadlines 10 + 20 + 40 s)
+	if !guardedEsc(10*time.Second, func() {
 		e.bcR.VerifPool().GetStatus()
 		e.bcR.VerifPool().PeekTwoBlocks()
 		e.bcR.VerifPool().IsCaughtUp()
 	}) {
 		e.hung = true
-		return "Drop", "", fmt.Errorf("BlockPool.GetStatus / PeekTwoBlocks / IsCaughtUp do not return within 5 s after the %s: the pool lock is held for good", class)
+		return "Drop", "", fmt.Errorf("BlockPool.GetStatus / PeekTwoBlocks / IsCaughtUp are still blocked 70 s after the %s: the pool lock is held for good", class)
 	}
-	// oracle 2: further honest responses are taken and the chain is executed (block 3 needs a block 4 to be verified)
-	for h := int64(1); h <= 3; h++ {
-		e.recvFrom(e.peer, resp(cloneBlock(e.blocks[h])))
-		if e.hung {
-			return "Drop", "", fmt.Errorf("the honest response for block %d after the %s never returned from Receive: fast sync is wedged", h, class)
-		}
+	// oracle 2: an honest peer that answers every request the pool assigns to it gets the chain executed (block 3 needs a
+	// block 4 to be verified).  A first window, then one twice as long; the verdict is read from the pool's own state.
+	if !e.serveHonest(2, 60*time.Second) && !e.hung {
+		e.serveHonest(2, 120*time.Second)
 	}
-	for k := 0; k < 120; k++ {
-		if ex := e.executedHeights(); len(ex) >= 2 {
-			break
-		}
-		time.Sleep(100 * time.Millisecond)
+	if e.hung {
+		return "Drop", "", fmt.Errorf("an honest response after the %s never returned from Receive: fast sync is wedged\n%s", class, e.hungWhy)
 	}
 	ex := e.executedHeights()
 	if len(ex) < 2 || ex[0] != 1 || ex[1] != 2 {
-		return "Drop", "", fmt.Errorf("after the %s the sync did not execute blocks 1 and 2 from honest responses within 12 s (executed %v)", class, ex)
+		v := e.bcR.VerifPool().VerifView(3)
+		return "Drop", "", fmt.Errorf("after the %s the sync did not execute blocks 1 and 2 although an honest peer answered every request for 180 s (executed %v; pool height %d, pending %d, requesters %+v, peers %+v)", class, ex, v.Height, v.NumPending, v.Requesters, v.Peers)
 	}
 	return "Accept", fmt.Sprintf("executed %v", ex), nil
 }
@@ -439,7 +541,7 @@ func runBCResponse(e *bcEnv, class string) (got, detail string, wedge error) {
 // last block's seen commit to VoteSet.AddVote and PanicCrisis-es on a refusal - on poolRoutine's goroutine / at start-up.
 // Oracle: for every height the sync executed, a consensus state built on the store at that height must come up.
 // Outcome: Accept = block 2 was executed with that commit, Drop = it was refused (peer dropped, block asked again).
-func runBCCommit(e *bcEnv, class string) (got, detail string, wedge error) {
+func runBCCommit(e *bcEnv, class, want string) (got, detail string, wedge error) {
 	if err := e.announce(3); err != nil {
 		return "setup-error", err.Error(), nil
 	}
@@ -497,23 +599,37 @@ func runBCCommit(e *bcEnv, class string) (got, detail string, wedge error) {
 			return "Drop", "", fmt.Errorf("BlockchainReactor.Receive never returned")
 		}
 	}
-	// poolRoutine decides in its own goroutine: block 2 executed, or refused (RedoRequest removes the peer from the pool)
-	for k := 0; k < 150; k++ {
+	// poolRoutine decides in its own goroutine: block 2 executed, or refused (RedoRequest removes the peer from the pool).
+	// Read from the pool's state, with a deadline that only machine load can approach.
+	served := map[int64]*types.Block{1: b1, 2: b2, 3: b3}
+	for k := 0; k < 1200 && !e.hung; k++ {
 		ex := e.executedHeights()
 		if len(ex) >= 2 {
 			break
 		}
-		if len(ex) >= 1 {
-			if _, known := e.bcR.VerifPool().VerifView(3).Peers[e.peer.Key]; !known {
-				break
+		v := e.bcR.VerifPool().VerifView(3)
+		_, known := v.Peers[e.peer.Key]
+		if len(ex) >= 1 && !known && want != "Accept" {
+			break
+		}
+		if !known && want == "Accept" {
+			// dropped as a slow peer before the verdict on block 2: an honest peer announces itself again and serves again
+			e.recv(blockchain.VerifStatusResponse(3))
+		}
+		for _, rq := range v.Requesters {
+			if rq.PeerID == e.peer.Key && !rq.HasBlock && served[rq.Height] != nil && (want == "Accept" || k == 0) {
+				e.recvFrom(e.peer, resp(served[rq.Height]))
 			}
 		}
 		time.Sleep(100 * time.Millisecond)
 	}
 	time.Sleep(150 * time.Millisecond)
 	ex := e.executedHeights()
+	if e.hung {
+		return "Drop", "", fmt.Errorf("BlockchainReactor.Receive never returned\n%s", e.hungWhy)
+	}
 	if len(ex) == 0 {
-		return "Drop", "", fmt.Errorf("the genuine block 1 was not executed within 15 s")
+		return "Drop", "", fmt.Errorf("the genuine block 1 was not executed within 120 s")
 	}
 	// the node's next steps: switch to consensus now, or stop and start again at any height it has reached
 	for _, hgt := range ex {
@@ -526,7 +642,7 @@ func runBCCommit(e *bcEnv, class string) (got, detail string, wedge error) {
 			cs.VerifCloseWAL()
 		}
 	}
-	if !guarded(5*time.Second, func() { e.bcR.VerifPool().GetStatus(); e.bcR.VerifPool().PeekTwoBlocks() }) {
+	if !guardedEsc(10*time.Second, func() { e.bcR.VerifPool().GetStatus(); e.bcR.VerifPool().PeekTwoBlocks() }) {
 		e.hung = true
 		wedge = fmt.Errorf("the pool is blocked after the commit with a malformed last slot")
 	}
@@ -609,7 +725,7 @@ func runMempool(class string) (got, detail string, wedge error) {
 	before := pool.Size()
 	disc, pval, _ := recvOn(memR, mempool.MempoolChannel, peer, bz)
 	after := pool.Size()
-	if !guarded(5*time.Second, func() { pool.ReceiveTx(types.Tx("fresh-after")); pool.Reap(-1) }) {
+	if !guardedEsc(8*time.Second, func() { pool.ReceiveTx(types.Tx("fresh-after")); pool.Reap(-1) }) {
 		wedge = fmt.Errorf("the mempool is blocked after the message")
 	} else if pool.Size() != after+1 {
 		wedge = fmt.Errorf("the mempool does not take a fresh transaction after the message")
@@ -682,7 +798,7 @@ func runPEX(class string) (got, detail string, wedge error) {
 	before := book.Size()
 	disc, pval, _ := recvOn(pexR, p2p.PexChannel, peer, bz)
 	after := book.Size()
-	if !guarded(5*time.Second, func() {
+	if !guardedEsc(8*time.Second, func() {
 		na, _ := p2p.NewNetAddressString("8.8.8.8:46656")
 		book.AddAddress(na, na)
 		book.GetSelection()
